@@ -43,7 +43,12 @@ func genOverlay(verifDir, repoDir, pkgDir, genDir string) (src map[string]string
 	emit := func(name string, content []byte, isTest bool) error {
 		real := filepath.Join(out, name)
 		if old, err := os.ReadFile(real); err != nil || string(old) != string(content) {
-			if err := os.WriteFile(real, content, 0o644); err != nil {
+			// atomic replace: several worker processes generate the same files
+			tmp := fmt.Sprintf("%s.%d.tmp", real, os.Getpid())
+			if err := os.WriteFile(tmp, content, 0o644); err != nil {
+				return err
+			}
+			if err := os.Rename(tmp, real); err != nil {
 				return err
 			}
 		}
